@@ -189,8 +189,8 @@ def c2s(ctx, ntexts, nmut):
     bnd = []
     esc = lambda v: v.replace("\\", "\\\\").replace("//", "\\//").replace(":", "\\:").replace(";", "\\;")      # noqa
     for b in ((4096, 8192, 16384) if ctx.quick else cc.BOUNDARIES):
-        for d in (range(-3, 2) if ctx.quick else range(-8, 9)):
-            for seq in (("//",) if ctx.quick else ("//", ":", "\\", "//x//")):
+        for d in (range(-3, 2) if ctx.quick else range(-4, 3)):
+            for seq in (("//",) if ctx.quick else ("//", "\\")):
                 body = "0" * (b + d) + seq + "1111\n2222"
                 bnd.append("#VERSION:0.83;\n#TITLE:t;\n#CREDIT:" + esc(body) + ";\n")
                 bnd.append("#TITLE:t;\n#CREDIT:" + esc(body) + ";\n")
